@@ -45,6 +45,7 @@ V_DECLARE_INPUTS
 #define OP_SETMOVE 11
 #define OP_REHASH 12
 #define OP_MARK 13
+#define OP_SHOW 14
 /* largest nitems with Table_Ideal_Size(nitems) <= NS (the size schedule itself is checked in OP_INIT) */
 /* MAXN_BELOW: largest nitems that fits the next smaller size (-1: none) */
 #if NS == 1
@@ -69,6 +70,10 @@ V_DECLARE_INPUTS
 #define NS_DOWN 11
 #endif
 
+/* values are of the WIDER probe type (key 16 bytes, value 24): key and value sizes differ, as they may in any Table */
+#define VTYPE ElemV
+#define VSZ 24
+#define VNEW(v) $(ElemV, (v), 0, ELEMV_TAG(v))
 static int64_t slot_key(struct Table* t, size_t i) { return ((struct Elem*)Table_Key(t, i))->val; }
 static int64_t slot_val(struct Table* t, size_t i) { return ((struct Elem*)Table_Val(t, i))->val; }
 
@@ -97,7 +102,8 @@ static _Bool inv(struct Table* t, size_t ns) {
     }
     for (size_t j = 0; j < ns; j++) if (j != i && Table_Key_Hash(t, j) != 0 && slot_key(t, j) == k) return 0;
     /* embedded headers carry the element type and the Data allocation class (C19) */
-    if (header(Table_Key(t, i))->type != Elem || header(Table_Val(t, i))->type != Elem) return 0;
+    if (header(Table_Key(t, i))->type != Elem || header(Table_Val(t, i))->type != VTYPE) return 0;
+    if (((struct ElemV*)Table_Val(t, i))->extra != ELEMV_TAG(slot_val(t, i))) return 0;        /* the whole value is there, not just its first ksize bytes */
 #if CELLO_ALLOC_CHECK == 1
     if (header(Table_Key(t, i))->alloc != (var)AllocData || header(Table_Val(t, i))->alloc != (var)AllocData) return 0;
 #endif
@@ -126,7 +132,7 @@ static _Bool model_get(struct Table* t, size_t ns, int64_t q, int64_t* v) {
 /* throw oracle */
 static var expect_throw = NULL;
 static struct Table* snap_t; static unsigned char snap_struct[sizeof(struct Table)];
-static unsigned char snap_data[NS * (8 + 2 * (sizeof(struct Header) + 16))]; static int snap_live;
+static unsigned char snap_data[NS * (8 + 2 * sizeof(struct Header) + 16 + 24)]; static int snap_live;
 static _Bool words_equal(const void* a, const void* b, size_t nbytes) {
   for (size_t i = 0; i < nbytes / 8; i++) if (((const uint64_t*)a)[i] != ((const uint64_t*)b)[i]) return 0;
   return 1;
@@ -157,11 +163,25 @@ void verif_rehash_stub(struct Table* t, size_t new_size) { rehash_calls++; rehas
 static var mark_seen[2 * NS + 2]; static int mark_n = 0; static var mark_gc;
 static void mark_rec(var gc, void* p) { V_ASSERT(gc == mark_gc, "the collector handle is passed through"); if (mark_n < 2 * NS + 2) mark_seen[mark_n] = p; mark_n++; }
 
+/* Show instance (C14: "for a container: its elements' own show text, each once, in iteration order"): print_to_with is
+ * a recorder here (replace-calls).  Every call advances the position by one, so the value returned at the end also
+ * shows that each call was given the position its predecessor returned. */
+#define SHOW_MAX 24
+static int show_n = 0; static int show_kind[SHOW_MAX]; static var show_a0[SHOW_MAX], show_a1[SHOW_MAX]; static int show_pos_ok = 1, show_next_pos = 0; static var show_out = NULL;
+int v_print_rec(var out, int pos, const char* fmt, var args) {
+  if (out != show_out || pos != show_next_pos) show_pos_ok = 0;
+  int kind = 0;                                   /* 0 literal, 1 element ("%$" present), 2 separator ", " */
+  for (int i = 0; i < 12 && fmt[i]; i++) if (fmt[i] == '%' && fmt[i + 1] == '$') kind = 1;
+  if (fmt[0] == ',' && fmt[1] == ' ' && fmt[2] == 0) kind = 2;
+  if (show_n < SHOW_MAX) { show_kind[show_n] = kind; struct Tuple* tp = args; show_a0[show_n] = tp->items[0]; show_a1[show_n] = (tp->items[0] != Terminal) ? tp->items[1] : Terminal; }
+  show_n++; show_next_pos = pos + 1;
+  return pos + 1;
+}
 static struct Table* arbitrary_table(void) {
   /* the Table object is laid out directly (header + struct); the constructor is covered by OP_INIT */
   static struct { struct Header h; struct Table t; } tobj;
   struct Table* t = header_init(&tobj.h, Table, AllocHeap);
-  t->ktype = Elem; t->vtype = Elem; t->ksize = 16; t->vsize = 16;
+  t->ktype = Elem; t->vtype = VTYPE; t->ksize = 16; t->vsize = VSZ;
   t->sspace0 = calloc(1, Table_Step(t)); t->sspace1 = calloc(1, Table_Step(t));
 #if OP == OP_ITER
   /* guard band: cursor arithmetic forms one-before-first pointers (Table_Iter_Prev: curr - step, then
@@ -180,7 +200,8 @@ static struct Table* arbitrary_table(void) {
       V_ASSUME(IN.home[i] >= 1 && IN.home[i] <= NS);
       *(uint64_t*)rec = IN.home[i];
       struct Elem* k = header_init(rec + 8, Elem, AllocData);
-      struct Elem* v = header_init(rec + 8 + sizeof(struct Header) + 16, Elem, AllocData);
+      struct ElemV* v = header_init(rec + 8 + sizeof(struct Header) + 16, VTYPE, AllocData);
+      v->extra = ELEMV_TAG(IN.val[i]);
       k->val = IN.key[i]; k->tok = elem_issue();
       v->val = IN.val[i]; v->tok = elem_issue();
       n++;
@@ -216,14 +237,14 @@ V_HARNESS {
 
 #if OP == OP_INIT
   /* base case: what the constructor builds satisfies the invariant */
-  struct Table* t = new_raw(Table, Elem, Elem);
+  struct Table* t = new_raw(Table, Elem, VTYPE);
   V_WITNESS("constructed");
   V_ASSERT(t->nslots == 1 && inv(t, 1) && t->nitems == 0 && Table_Len(t) == 0, "new Table: one empty slot, invariant holds");
   V_ASSERT(!Table_Mem(t, $(Elem, q, 0)), "new Table: no key is a member");
   V_ASSERT(Table_Iter_Init(t) == Terminal && Table_Iter_Last(t) == Terminal, "new Table: iteration is empty");
   V_ASSERT(Table_Ideal_Size(0) == 1 && Table_Ideal_Size(1) == 5 && Table_Ideal_Size(4) == 5 && Table_Ideal_Size(5) == 11 &&
            Table_Ideal_Size(9) == 11 && Table_Ideal_Size(10) == 23, "size schedule 1,5,11,23 as the harness bounds assume");
-  Table_Set(t, pk, $(Elem, v, 0));
+  Table_Set(t, pk, VNEW(v));
   V_ASSERT(t->nslots == 5 && inv(t, 5) && t->nitems == 1 && owns(t, 5), "first set grows 1 -> 5 slots, invariant and ownership hold");
   int64_t gv = -1; V_ASSERT(model_get(t, 5, k, &gv) && gv == v, "first set binds the key");
   V_ASSERT(((struct Elem*)Table_Get(t, pk))->val == v && Table_Mem(t, pk), "get/mem find it");
@@ -238,7 +259,7 @@ V_HARNESS {
   /* the insertion kernel alone (what Table_Set, Table_New, Table_Assign and every rehash step run):
    * precondition: at least one empty slot */
   V_ASSUME(n < NS);
-  Table_Set_Move(t, pk, $(Elem, v, 0), false);
+  Table_Set_Move(t, pk, VNEW(v), false);
   V_WITNESS("set_move completed");
   size_t n2 = n + (k_in ? 0 : 1);
   V_ASSERT(inv(t, NS), "set_move: representation invariant preserved");
@@ -261,7 +282,7 @@ V_HARNESS {
 
 #elif OP == OP_SET
   /* Table_Set = Table_Set_Move + Table_Resize_More; the rehash call is the stub */
-  Table_Set(t, pk, $(Elem, v, 0));
+  Table_Set(t, pk, VNEW(v));
   V_WITNESS("set completed");
   size_t n2 = n + (k_in ? 0 : 1);
   V_ASSERT(inv(t, NS), "set: representation invariant holds before any growth rehash");
@@ -306,7 +327,7 @@ V_HARNESS {
   if (k_in) {
     struct Elem* g = Table_Get(t, pk);
     V_ASSERT(g->val == kv, "get returns the bound value");
-    V_ASSERT(type_of(g) == Elem, "get returns an object of the value type (C19)");
+    V_ASSERT(type_of(g) == VTYPE, "get returns an object of the value type (C19)");
   }
   V_ASSERT(inv(t, NS) && owns(t, NS), "lookups change nothing");
 
@@ -348,11 +369,24 @@ V_HARNESS {
   Table_Resize(t, 0);
   V_ASSERT(Table_Len(t) == 0 && elem_live_count() == 0 && elem_ledger_ok, "resize(0): all keys and values finalised exactly once");
   V_ASSERT(!Table_Mem(t, pk) && Table_Iter_Init(t) == Terminal, "emptied table: no members");
-  Table_Set(t, pk, $(Elem, v, 0));
+  Table_Set(t, pk, VNEW(v));
   V_WITNESS("set after clear completed");
   V_ASSERT(t->nitems == 1 && Table_Mem(t, pk) && ((struct Elem*)Table_Get(t, pk))->val == v, "an emptied table keeps working");
   V_ASSERT(elem_live_count() == 2 && elem_ledger_ok, "one key and one value live afterwards");
 
+#elif OP == OP_SHOW
+  { static uint64_t outobj[2]; show_out = &outobj[1]; show_next_pos = 7;
+    int end = Table_Show(t, show_out, 7);
+    V_WITNESS("shown");
+    size_t n = t->nitems; _Bool ok = show_pos_ok && show_n == (int)(n == 0 ? 2 : 2 * n + 1) && end == 7 + show_n && show_kind[0] == 0 && show_kind[show_n - 1] == 0;
+    size_t e = 0;
+    for (size_t i = 0; i < NS; i++) if (Table_Key_Hash(t, i) != 0) {
+      int at = 1 + 2 * (int)e;
+      if (at >= SHOW_MAX || show_kind[at] != 1 || show_a0[at] != Table_Key(t, i) || show_a1[at] != Table_Val(t, i)) ok = 0;
+      if (e + 1 < n && (at + 1 >= SHOW_MAX || show_kind[at + 1] != 2)) ok = 0;
+      e++;
+    }
+    V_ASSERT(ok && e == n, "show: every key:value pair exactly once, in slot order, separators strictly between entries, positions threaded"); }
 #elif OP == OP_MARK
   { static uint64_t gcobj[2]; mark_gc = &gcobj[1];
     Table_Mark(t, mark_gc, mark_rec);
